@@ -67,6 +67,23 @@ def family(tier, rnd):
                         p = chain_prog(depth, rk, sw, hks, he, followups=False, pre=PRE[rnd.choice(list(PRE))])
                         p["eol"] = rnd.choice(["", "crlf"]); p["tag"] += "/in-handler/%s" % (p["eol"] or "lf")
                         P.append(p)
+    # the fault statement in every bare expression-statement form (a statement that is nothing but the faulting expression)
+    K = cls("KF", [("p", num(1)), ("q", lst(num(1)))],
+            methods=[func("m1", [], [mark("m1"), ex(this("nope")), mark("dead")]),
+                     func("m2", [], [mark("m2"), ex(idx(this("q"), num(9))), mark("dead")]),
+                     func("m3", ["X"], [mark("m3"), ex(mem(var("X"), "nope")), mark("dead")]),
+                     func("m4", [], [mark("m4"), ex(mcall(this("@self"), "nomethod")), mark("dead")]),
+                     func("m5", [], [mark("m5"), ex(mcall(this("@self"), "m1")), mark("dead")])])
+    for mname, args in (("m1", []), ("m2", []), ("m3", [var("O")]), ("m4", []), ("m5", [])):
+        for prek in ("none", "block", "mix"):
+            p = prog([decl("O", new("KF")), mark("a"), ex(mcall(var("O"), mname, *args)), mark("dead")], classes=[K])
+            if PRE[prek]: p["main"][2]["pre"] = PRE[prek]
+            p["eol"] = rnd.choice(["", "crlf"]); p["tag"] = "bare-stmt/%s/%s/%s" % (mname, prek, p["eol"] or "lf")
+            P.append(p)
+    for tagx, st in (("member-of-var", ex(mem(var("V9"), "nope"))), ("index-of-var", ex(idx(var("V9"), num(7)))), ("bare-var", ex(var("NOPE"))),
+                     ("bare-call", ex(call("nofunc"))), ("bare-bin", ex(bin_("div", var("V9"), num(0)))), ("bare-list", ex(lst(var("NOPE"))))):
+        p = prog([decl("V9", lst(num(1))), mark("a"), st, mark("dead")]); p["main"][2]["pre"] = PRE["cmt"]
+        p["tag"] = "bare-stmt/" + tagx; P.append(p)
     # across module files: the chain names, for every active call, the FILE (module) and the call-site line in that file
     LV = {1: [[1]], 2: [[0, 1], [1, 1], [1, 2]], 3: [[0, 1, 2], [1, 1, 2], [1, 2, 2], [0, 0, 1]]}
     for depth in (1, 2, 3):
